@@ -94,7 +94,9 @@ impl Plugin for ServerEventPlugin {
                 PreUpdate,
                 (
                     receive.run_if(server_running),
-                    trigger.run_if(server_or_singleplayer),
+                    // No run condition: triggers re-emitted locally in the last frame before
+                    // the client started connecting still have to reach observers.
+                    trigger,
                 )
                     .chain()
                     .in_set(ServerSet::Receive),
